@@ -356,3 +356,13 @@ Theorem C10_orthonormal_nonzero_direction :
      dot (col c (gen_ortho_basis_2d j d G2)) (col c' (gen_ortho_basis_2d j d G2)) = if Nat.eqb c c' then 1 else 0).
 Proof. exact gen_branches_orthonormal_nonzero. Qed.
 Print Assumptions C10_orthonormal_nonzero_direction.
+
+(** Composition, every copy of the step (logistic, linear, joint, mixture entries of [gen_center_scripts]): running the
+    translated script on any store holding xi and log_v0 (and n_log_nu iff the model has it) ends in a store whose xi
+    have mean 0 and in which, for every individual i and every coordinate k (every event q), ALL the traced trajectory
+    and attachment formulas (and, with n_log_nu, the Weibull event terms) take the value they had before; no other
+    variable is touched.  [step_preserves], [formulas_invariant], [event_invariant]: Formulas/GaugeAll.v. *)
+Theorem C10_step_is_pure_gauge_all_classes :
+  Forall (fun e => step_preserves (fst (snd e)) (snd (snd e))) gen_center_scripts.
+Proof. exact all_steps_preserve. Qed.
+Print Assumptions C10_step_is_pure_gauge_all_classes.
